@@ -4,7 +4,9 @@ import (
 	"bufio"
 	"bytes"
 	"context"
+	"crypto/sha256"
 	"encoding/json"
+	"flag"
 	"fmt"
 	"io"
 	"net"
@@ -314,4 +316,307 @@ func portOf(addr string) int {
 	var n int
 	fmt.Sscan(p, &n)
 	return n
+}
+
+// ---- whole sessions with the real binaries ---------------------------------------------------------
+
+type e2eOutcome struct {
+	Session   int      `json:"session"`
+	Args      []string `json:"host_args"`
+	Tree      string   `json:"tree"`
+	HostExit  int      `json:"host_exit"`
+	JoinExit  int      `json:"join_exit"`
+	JoinDone  bool     `json:"join_done"`
+	Equal     bool     `json:"equal"`
+	Diff      []string `json:"diff,omitempty"`
+	DurMs     int64    `json:"dur_ms"`
+	HostPrim  string   `json:"host_primary"`
+	JoinPrim  string   `json:"join_primary"`
+	SameConn  bool     `json:"same_conn"`
+	HostConns int      `json:"host_conns"`
+	JoinConns int      `json:"join_conns"`
+	Requested int      `json:"requested_conns"`
+	Trouble   string   `json:"trouble,omitempty"`
+	JoinTail  string   `json:"join_tail,omitempty"`
+	HostTail  string   `json:"host_tail,omitempty"`
+	NumEvents int      `json:"events"`
+}
+
+func treeDigest(root string) (map[string]string, error) {
+	out := map[string]string{}
+	err := filepath.Walk(root, func(p string, info os.FileInfo, err error) error {
+		if err != nil {
+			return err
+		}
+		rel, _ := filepath.Rel(root, p)
+		if rel == "." || strings.HasPrefix(rel, ".thruflux_resumedata") {
+			if info.IsDir() && rel != "." {
+				return filepath.SkipDir
+			}
+			return nil
+		}
+		if info.IsDir() {
+			out[rel+"/"] = "dir"
+			return nil
+		}
+		b, err := os.ReadFile(p)
+		if err != nil {
+			return err
+		}
+		out[rel] = fmt.Sprintf("%d:%x", len(b), sha256Sum(b))
+		return nil
+	})
+	return out, err
+}
+
+type treeShape struct {
+	name  string
+	specs []fileSpecLite
+}
+
+type fileSpecLite struct {
+	rel  string
+	size int64 // -1 dir
+}
+
+var e2eTrees = []treeShape{
+	{"two-small", []fileSpecLite{{"a.txt", 6}, {"b.bin", 300000}}},
+	{"nested-empty", []fileSpecLite{{"sub/x.bin", 70000}, {"sub/deep/y.bin", 1}, {"empty.dat", 0}, {"emptydir", -1}}},
+	{"multi-chunk", []fileSpecLite{{"big.bin", 1<<20 + 123}, {"c.txt", 10}}},
+	{"many", []fileSpecLite{{"f1", 100}, {"f2", 200}, {"f3", 300}, {"d/f4", 4096}, {"d/f5", 65536}, {"d/e/f6", 65537}}},
+}
+
+func makeLiteTree(root string, specs []fileSpecLite, seed int64) error {
+	for i, s := range specs {
+		p := filepath.Join(root, filepath.FromSlash(s.rel))
+		if s.size < 0 {
+			if err := os.MkdirAll(p, 0o755); err != nil {
+				return err
+			}
+			continue
+		}
+		if err := os.MkdirAll(filepath.Dir(p), 0o755); err != nil {
+			return err
+		}
+		buf := make([]byte, s.size)
+		x := uint64(seed)*2654435761 + uint64(i)*40503 + 1
+		for j := range buf {
+			x = x*6364136223846793005 + 1442695040888963407
+			buf[j] = byte(x>>33) | 1
+		}
+		if err := os.WriteFile(p, buf, 0o644); err != nil {
+			return err
+		}
+	}
+	return nil
+}
+
+// runE2ESession runs one real host + one real join and appends their normalised traces to w.
+func runE2ESession(idx int, srvURL, thruBin string, seed int64, w io.Writer) e2eOutcome {
+	o := e2eOutcome{Session: idx}
+	work, err := os.MkdirTemp("", "vh-e2e-")
+	if err != nil {
+		o.Trouble = err.Error()
+		return o
+	}
+	defer os.RemoveAll(work)
+	shape := e2eTrees[(int(seed)+idx)%len(e2eTrees)]
+	o.Tree = shape.name
+	src := filepath.Join(work, "src", "share")
+	if err := makeLiteTree(src, shape.specs, seed+int64(idx)); err != nil {
+		o.Trouble = err.Error()
+		return o
+	}
+	outDir := filepath.Join(work, "out")
+	_ = os.MkdirAll(outDir, 0o755)
+	conns := []string{"1", "2", "4"}[(int(seed)+idx)%3]
+	hostArgs := []string{"host", src, "--server-url", srvURL, "--stun-server", "stun:127.0.0.1:9", "--total-connections", conns}
+	if (int(seed)+idx)%2 == 0 {
+		hostArgs = append(hostArgs, "--chunk-size", "65536")
+	}
+	o.Args = hostArgs[2:]
+	fmt.Sscan(conns, &o.Requested)
+	t0 := time.Now()
+	host, err := startChild(thruBin, hostArgs, filepath.Join(work, "host.trace"), nil, "")
+	if err != nil {
+		o.Trouble = err.Error()
+		return o
+	}
+	defer host.kill()
+	code := ""
+	for i := 0; i < 400 && code == ""; i++ {
+		txt := host.out.String()
+		if j := strings.Index(txt, "Join Code: "); j >= 0 {
+			rest := txt[j+len("Join Code: "):]
+			if k := strings.IndexAny(rest, " \n"); k > 0 {
+				code = rest[:k]
+			}
+		}
+		if code == "" {
+			time.Sleep(20 * time.Millisecond)
+		}
+	}
+	if code == "" {
+		o.Trouble = "no join code from host: " + tailText(host.out.String(), 200)
+		return o
+	}
+	join, err := startChild(thruBin, []string{"join", code, "--out", outDir, "--server-url", srvURL, "--stun-server", "stun:127.0.0.1:9"},
+		filepath.Join(work, "join.trace"), nil, "y\n")
+	if err != nil {
+		o.Trouble = err.Error()
+		return o
+	}
+	defer join.kill()
+	jc, done := join.wait(45 * time.Second)
+	o.JoinExit, o.JoinDone = jc, done
+	host.waitEvent(3*time.Second, func(e hookEv) bool { return e.Pt == "host.transfer.done" })
+	o.DurMs = time.Since(t0).Milliseconds()
+	hc, hdone := host.wait(10 * time.Millisecond)
+	if hdone {
+		o.HostExit = hc
+	}
+	want, _ := treeDigest(filepath.Join(work, "src"))
+	got, _ := treeDigest(outDir)
+	o.Equal = true
+	for k, v := range want {
+		if got[k] != v {
+			o.Equal = false
+			o.Diff = append(o.Diff, fmt.Sprintf("%s: want %s got %s", k, v, got[k]))
+		}
+	}
+	for k := range got {
+		if _, ok := want[k]; !ok {
+			o.Equal = false
+			o.Diff = append(o.Diff, "unexpected "+k)
+		}
+	}
+	if len(o.Diff) > 6 {
+		o.Diff = o.Diff[:6]
+	}
+	o.JoinTail, o.HostTail = tailText(join.out.String(), 300), tailText(host.out.String(), 200)
+	// normalised traces
+	for _, pr := range []struct {
+		role string
+		c    *childProc
+	}{{"host", host}, {"join", join}} {
+		evs := pr.c.events()
+		o.NumEvents += len(evs)
+		keys := map[uint64]int{}
+		fmt.Fprintf(w, "{\"pt\":\"trace.reset\",\"a\":0,\"b\":0,\"s\":%q,\"sess\":%d}\n", pr.role, idx)
+		for _, e := range evs {
+			a := e.A
+			if strings.HasPrefix(e.Pt, "recv.chunk") || e.Pt == "recv.filebegin" || e.Pt == "recv.finalize" ||
+				(strings.HasPrefix(e.Pt, "send.") && e.Pt != "send.worker.take") {
+				id, ok := keys[a]
+				if !ok {
+					id = len(keys) + 1
+					keys[a] = id
+				}
+				a = uint64(id)
+			}
+			if a > 1<<30 {
+				a = 1 << 30
+			}
+			b := e.B
+			if b > 1<<30 {
+				b = 1 << 30
+			}
+			fmt.Fprintf(w, "{\"pt\":%q,\"a\":%d,\"b\":%d,\"s\":%q,\"sess\":%d}\n", e.Pt, a, b, e.S, idx)
+			if e.Pt == "xfer.begin" {
+				if pr.role == "host" {
+					o.HostConns = int(e.A)
+				} else {
+					o.JoinConns = int(e.A)
+				}
+			}
+			if e.Pt == "conn.primary" {
+				if pr.role == "host" {
+					o.HostPrim = e.S
+				} else {
+					o.JoinPrim = e.S
+				}
+			}
+		}
+	}
+	// host: "local>remote"; join: remote address of its primary = the host's local socket
+	if i := strings.Index(o.HostPrim, ">"); i > 0 {
+		o.SameConn = portOf(o.HostPrim[:i]) != 0 && portOf(o.HostPrim[:i]) == portOf(o.JoinPrim)
+	}
+	return o
+}
+
+func sha256Sum(b []byte) []byte {
+	h := sha256.Sum256(b)
+	return h[:]
+}
+
+// E2ESessions runs whole sessions with the real thruserv / thru host / thru join binaries, judges the
+// outcome (bytes, exit status, same connection) and writes the normalised hook traces for SessionTrace.tla.
+func E2ESessions(args []string) {
+	fs := flag.NewFlagSet("e2e-sessions", flag.ExitOnError)
+	n := fs.Int("n", 4, "sessions (over all shards)")
+	shard := fs.Int("shard", 0, "shard")
+	shards := fs.Int("shards", 1, "shards")
+	thruserv := fs.String("thruserv", "", "thruserv binary")
+	thru := fs.String("thru", "", "thru binary (built with -tags verif)")
+	seed := fs.Int64("seed", 1, "seed")
+	traceOut := fs.String("trace-out", "", "prefix of the combined trace file (the shard number is appended)")
+	fs.Parse(args)
+	srv, err := startServer(*thruserv, nil, unlimited...)
+	if err != nil {
+		fmt.Fprintln(os.Stderr, err)
+		os.Exit(3)
+	}
+	defer srv.stop()
+	f, err := os.Create(fmt.Sprintf("%s.%d", *traceOut, *shard))
+	if err != nil {
+		fmt.Fprintln(os.Stderr, err)
+		os.Exit(3)
+	}
+	defer f.Close()
+	res := &Result{Extra: map[string]any{}}
+	outcomes := map[string]int{}
+	trouble := 0
+	for i := 0; i < *n; i++ {
+		if i%*shards != *shard {
+			continue
+		}
+		o := runE2ESession(i, srv.url, *thru, *seed, f)
+		if o.Trouble != "" {
+			trouble++
+			fmt.Fprintln(os.Stderr, "trouble:", o.Trouble)
+			continue
+		}
+		res.Behaviours++
+		res.Steps += o.NumEvents
+		replay := o
+		ok := o.JoinDone && o.JoinExit == 0
+		switch {
+		case !ok && !o.SameConn:
+			res.AddViolation(map[string]any{"prop": "C09", "kind": "session_failed_on_different_connections", "side": "both"}, replay)
+		case !ok:
+			res.AddViolation(map[string]any{"prop": "C03", "kind": "session_did_not_complete", "tree": o.Tree}, replay)
+		case !o.Equal:
+			res.AddViolation(map[string]any{"prop": "C01", "kind": "bytes_differ_after_successful_session", "tree": o.Tree}, replay)
+		}
+		if ok && o.HostConns != o.JoinConns {
+			res.AddViolation(map[string]any{"prop": "C09", "kind": "peers_disagree_on_the_connections_in_use", "side": "both"}, replay)
+		}
+		if ok && o.HostConns < o.Requested && o.DurMs > 9000 {
+			// fewer connections than asked for after a stall of the length of the authentication timeout
+			res.AddViolation(map[string]any{"prop": "C09", "kind": "authentication_timed_out_on_an_extra_connection", "side": "both"}, replay)
+		}
+		if ok && !o.SameConn {
+			res.AddViolation(map[string]any{"prop": "C09", "kind": "peers_on_different_connections", "side": "both"}, replay)
+		}
+		outcomes[fmt.Sprintf("ok=%v equal=%v same_conn=%v conns=%d/%d", ok, o.Equal, o.SameConn, o.HostConns, o.JoinConns)]++
+		res.AddSample(map[string]any{"tree": o.Tree, "args": o.Args, "ms": o.DurMs, "events": o.NumEvents, "ok": ok}, 4)
+	}
+	res.Distinct = res.Behaviours
+	res.Extra["outcomes"] = outcomes
+	res.Extra["trouble"] = trouble
+	res.Print()
+	if trouble > res.Behaviours/4+1 {
+		os.Exit(3)
+	}
 }
